@@ -83,6 +83,20 @@ def run(chk):
                             chk.fail("%s trained from a bag with %s partitions differs from the in-memory list in %s (order seed %d, isolated=%s)"
                                      % (kind.upper(), k, bad, sd, iso), dict(ctx, kind=kind, npartitions=k, isolated=iso, order_seed=sd,
                                                                            executed_order=sch.orders[-1] if sch.orders else []))
+            # the labels given as a Dask bag too, partitioned differently from the statistics bag
+            def job_ybag():
+                m_ = mk()
+                m_.fit(bag_of(3), dask.bag.from_sequence(list(y), npartitions=2))
+                return m_
+            try:
+                myb_, _sch = dasksched.run_under(100 * chk.seed + 2, False, job_ybag)
+                chk.count(1, key=(kind, "labels as a differently partitioned bag"))
+                bad = [nm for nm, a, b in (("U", myb_.U, ref.U), ("D", myb_.D, ref.D)) + ((("V", myb_.V, ref.V),) if kind == "jfa" else ()) if not close(a, b)]
+                if bad:
+                    chk.fail("%s trained from a statistics bag (3 partitions) with the labels in a bag of 2 partitions differs from the list-trained model in %s" % (kind.upper(), bad),
+                             dict(ctx, kind=kind, npartitions=3, label_partitions=2))
+            except Exception as e:
+                chk.fail("%s.fit(statistics bag with 3 partitions, labels bag with 2 partitions) raises %r" % (kind.upper(), e), dict(ctx, kind=kind, npartitions=3, label_partitions=2))
             # a machine that has already been USED (channel factors estimated, a client enrolled) and is then trained from a bag on workers that see
             # serialised copies of it: the same model as an unused machine trained from the list
             def job_used():
@@ -140,6 +154,21 @@ def run(chk):
                     if not (close(m.T, ref.T) and close(m.sigma, ref.sigma)):
                         chk.fail("i-vector extractor trained from a bag with %s partitions differs from the in-memory list (order seed %d, isolated=%s)" % (k, sd, iso),
                                  dict(ctx, npartitions=k, isolated=iso, order_seed=sd, update_sigma=upd, executed_order=sch.orders[-1] if sch.orders else []))
+        # statistics with very small fractional counts throughout (soft counts of heavily down-weighted data): bag = list
+        if rd % 2 == 0:
+            tiny = []
+            for q_ in stats:
+                qt_ = copy.copy(q_)
+                qt_.n, qt_.sum_px, qt_.sum_pxx = np.asarray(q_.n, dtype=float) * 1e-10, np.asarray(q_.sum_px, dtype=float) * 1e-10, np.asarray(q_.sum_pxx, dtype=float) * 1e-10
+                tiny.append(qt_)
+            ref_t = iv.fit_machine(ubm, tiny, t, 2, False, 1e-10, seed)
+            for kparts in (2, 3):
+                mt_, _sch = dasksched.run_under(100 * chk.seed + 5, False, lambda: iv.fit_machine(ubm, dask.bag.from_sequence(tiny, npartitions=kparts), t, 2, False, 1e-10, seed))
+                chk.count(1, key=("ivector", "tiny counts", kparts))
+                # (with counts of 1e-10 the trained T is itself of order 1e-18: compare relative to its size)
+                if not np.allclose(np.asarray(mt_.T), np.asarray(ref_t.T), rtol=1e-6, atol=1e-8 * float(np.abs(np.asarray(ref_t.T)).max())):
+                    chk.fail("i-vector extractor trained from a bag with %d partitions of statistics whose counts are all around 1e-10 differs from the in-memory list" % kparts,
+                             dict(ctx, npartitions=kparts, count_scale=1e-10))
         # correspondence: the model on the same partition structure
         k = r.choice(nparts)
         b = bag_of(k)
